@@ -102,8 +102,8 @@ func (l layout) cfg() hx.Config {
 	return hx.Config{Name: "blocksize-default", DisableWAL: true, MemTableSize: 32 << 10}
 }
 
-// c09Layouts enumerates the layout space, fewest points first. Quick tier: at most 2 points with one
-// or two range keys and 3 points with one range key, point placement "all flushed" / "all in the
+// c09Layouts enumerates the layout space, fewest points first. Quick tier: at most 3 points with one
+// or two range keys, point placement "all flushed" / "all in the
 // memtable", one table per flushed group. Thorough tier: at
 // most 4 points, every point flushed or not individually, and for the uniform placements also the
 // variant with everything flushed into ONE table.
@@ -149,9 +149,6 @@ func c09Layouts(thorough bool) []layout {
 				}
 				for _, bs1 := range bsOpts {
 					for _, rs := range rkSets {
-						if !thorough && np == 3 && len(rs) > 1 {
-							continue
-						}
 						for rp := 0; rp < 1<<uint(len(rs)); rp++ {
 							rf := make([]bool, len(rs))
 							groups := 0
